@@ -16,7 +16,7 @@ LAZY_SOURCES = [
     ("vyxal/helpers.py::prefixes", ["lhs"], {"len(lhs)", "lhs[:i + 1]"}),  # both in the branch `isinstance(lhs, str)`
     ("vyxal/helpers.py::scanl", ["vector"], set()),
     ("vyxal/elements.py::vy_zip", ["lhs", "rhs"], set()),
-    ("vyxal/elements.py::interleave", ["lhs", "rhs"], set()),
+    ("vyxal/elements.py::interleave", ["lhs", "rhs"], {"''.join(gen())"}),  # two strings: finite, joined
 ]
 
 
@@ -25,7 +25,11 @@ def forcing_uses(fnode, sources, allowed):
     subscripted, or iterated by anything but a `for` statement of a generator.  -> list of texts"""
     tainted = set(sources)
 
+    closures = set()
+
     def carries(e):  # does the value of e carry the source (type-only calls return no part of it)
+        if isinstance(e, ast.Call) and isinstance(e.func, ast.Name) and e.func.id in closures:
+            return True  # the lazy result of the function's own generator over the source
         if isinstance(e, ast.Call) and ast.unparse(e.func).split(".")[-1] not in WRAPPERS:
             return False  # the result of any other call is a new value; the call itself is judged below
         if isinstance(e, ast.Name):
@@ -42,6 +46,9 @@ def forcing_uses(fnode, sources, allowed):
                         if isinstance(n, ast.Name) and n.id not in tainted:
                             tainted.add(n.id)
                             changed = True
+    for nd in ast.walk(fnode):  # the function's own generators over the source: forcing their result forces the source
+        if isinstance(nd, ast.FunctionDef) and nd is not fnode and any(isinstance(n, ast.Name) and n.id in tainted for n in ast.walk(nd)):
+            closures.add(nd.name)
     bad = []
 
     def mentions(e):
@@ -82,7 +89,7 @@ class C14(Prop):
                 g.append(Ground(f"C14/source-not-forced[{key.split('::')[1]}]", False, "function not found"))
                 continue
             bad = forcing_uses(fn.node, sources, allowed)
-            g.append(Ground(f"C14/source-not-forced[{fn.name}]", not bad, f"the lazy source reaches a forcing operation: {bad}", witness=dict(function=key, forcing=bad) if bad else None))
+            g.append(Ground(f"C14/source-not-forced[{fn.name}]", not bad, f"the lazy source reaches a forcing operation: {bad}", witness=dict(function=key, forcing=bad) if bad else None, native=False))
         return g
 
     def sweep(self, ns):
